@@ -166,32 +166,52 @@ def _strip(x, pre):
 
 
 def project(trace_path, key, out_path):
-    """the events of store `key` ("A"/"B") of a two-store log, renamed as if it were the only store"""
+    """the events of store `key` ("A"/"B") of a two-store log, renamed as if it were the only store.
+    A thread of the *other* store that calls into this one (a subscriber forwarding actions) is a
+    client of this store: it is renamed x<OTHER> and its program is what its "xop" records say."""
     pre = key + "."
+    runs = []
+    cur = None
+    for line in open(trace_path):
+        e = json.loads(line)
+        if e["ev"] == "reset":
+            cur = {"reset": e, "events": []}
+            runs.append(cur)
+        else:
+            cur["events"].append(e)
     n = 0
     with open(out_path, "w") as out:
-        for line in open(trace_path):
-            e = json.loads(line)
-            if e["ev"] == "reset":
-                prog = {c: [{k: v for k, v in o.items() if k != "st"} for o in ops if o.get("st") == key]
-                        for c, ops in e["d"]["prog"].items()}
-                e["d"] = {"id": e["d"]["id"], "prog": prog, "mode": "free"}
-                e.pop("st", None)
-                out.write(json.dumps(e) + "\n")
-                continue
-            if e["ev"] in ("start", "prog.end"):
-                continue
-            if e.get("st") != pre:
-                continue
-            e.pop("st", None)
-            e["t"] = _strip(e["t"], pre)
-            if isinstance(e["d"], dict):
-                if "ch" in e["d"]:
-                    e["d"]["ch"] = _strip(e["d"]["ch"], pre)
-                if "who" in e["d"]:
-                    e["d"]["who"] = _strip(e["d"]["who"], pre)
-            out.write(json.dumps(e) + "\n")
-            n += 1
+        for r in runs:
+            e = r["reset"]
+            prog = {c: [{k: v for k, v in o.items() if k != "st"} for o in ops if o.get("st") == key]
+                    for c, ops in e["d"]["prog"].items()}
+            body = []
+            for x in r["events"]:
+                if x["ev"] in ("start", "prog.end") or x.get("st") != pre:
+                    continue
+                t = x["t"]
+                if "." in t and not t.startswith(pre):          # a thread of another store acting here
+                    t = "x" + t.split(".")[0]
+                    if x["ev"] == "xop":
+                        prog.setdefault(t, []).append(x["d"])
+                        continue
+                else:
+                    t = _strip(t, pre)
+                x = dict(x)
+                x.pop("st", None)
+                x["t"] = t
+                if isinstance(x["d"], dict):
+                    x["d"] = dict(x["d"])
+                    if "ch" in x["d"]:
+                        x["d"]["ch"] = _strip(x["d"]["ch"], pre)
+                    if "who" in x["d"]:
+                        x["d"]["who"] = _strip(x["d"]["who"], pre)
+                body.append(x)
+            hdr = {"seq": 0, "t": "-", "ev": "reset", "d": {"id": e["d"]["id"], "prog": prog, "mode": "free"}, "notes": [], "ans": "-"}
+            out.write(json.dumps(hdr) + "\n")
+            for x in body:
+                out.write(json.dumps(x) + "\n")
+                n += 1
     return n
 
 
@@ -209,6 +229,11 @@ def two_store_programs(tier):
     P.append({"c1": on("A", [sh, D(1), D(2)]) + on("B", [sh, D(1)]) + on("A", [O("drop_store"), O("get_state")]),
               "c2": on("B", [D(2, "trait"), D(3)]),
               "c3": on("B", [S("subscribed", "s2")]) + on("A", [S("subscribed", "s2"), D(3, "trait")]) + on("B", [D(4), O("stop"), O("get_state"), O("metrics")])})
+    # a subscriber of A forwards every notification to B as a new action (A's reducer thread is a client of B)
+    fw = dict(S("add_sub", "f1"), via="fwd:B")
+    P.append({"c1": on("A", [fw, D(1), D(2), D(3, "trait")]),
+              "c2": on("B", [D(1, "trait"), D(2), D(3)]),
+              "c3": on("A", [O("stop"), O("get_state"), O("metrics")]) + on("B", [O("stop"), O("get_state"), O("metrics")])})
     return P
 
 
@@ -235,9 +260,9 @@ def c19(ctx, finish):
             ctx.errors.append("TLC on TwoStores: %s\n%s" % (r.violation, r.out[-1200:]))
             return finish(ctx)
         # (2) two real stores in one process; every store's half of the log must be a behaviour of RsStore
-        acts = {1: 0, 2: 1, 3: 0, 4: 1}
-        subs = {"x1": {"kind": "direct"}, "s2": {"kind": "chan", "cap": 1, "pol": "block"}}
-        variants = [("block", 2, "block", 2), ("oldest", 1, "block", 2)] if q else \
+        acts = {1: 0, 2: 1, 3: 0, 4: 1, 11: 0, 12: 0, 13: 0}
+        subs = {"x1": {"kind": "direct"}, "f1": {"kind": "direct"}, "s2": {"kind": "chan", "cap": 1, "pol": "block"}}
+        variants = [("block", 2, "block", 1), ("oldest", 1, "block", 2)] if q else \
                    [("block", 2, "block", 2), ("oldest", 1, "block", 2), ("latest", 1, "oldest", 1), ("block", 1, "latest", 2)]
         progs = two_store_programs(ctx.tier)
         reps = 60 if q else 400
@@ -263,7 +288,7 @@ def c19(ctx, finish):
             for key, ix in (("A", ia), ("B", ib)):
                 proj = os.path.join(d, "two%d.%s.ndjson" % (vi, key))
                 project(tr, key, proj)
-                v = tracecheck.validate(ix, proj, tlc.workdir("c19v"), clients=["c1", "c2", "c3"],
+                v = tracecheck.validate(ix, proj, tlc.workdir("c19v"), clients=["c1", "c2", "c3", "xA", "xB"],
                                         timeout=600 if q else 3000)
                 ctx.frees.append({"instance": ix["name"], "store": key, "runs": len(res), "accepted": v.get("accepted"),
                                   "validator_states": v.get("states")})
